@@ -24,8 +24,9 @@ class P(vlib.Prop):
     level_text = ("Theorems about an executable model of the OCI emitters' own logic, whose constants, tables and append-offset arithmetic are regenerated from "
                   "index.go / image.go / types.go on every run: c12_append_offset (for all positions and sizes the offset BuildIndex seeks to is the least multiple of 512 "
                   "at or after the end of the last member), c12_env, c12_config_mapping, c12_platform_table (whole generated switch tables), c12_index (for every map "
-                  "iteration order); c12_bundle_complete is refuted for architecture sets with two variants of one platform architecture (known finding C12-F1) and proved "
-                  "otherwise. The model is tied to the code by differential comparison on real BuildIndex / BuildImageFromLayers / GenerateIndex runs.")
+                  "iteration order). Two full statements are proved under a source fact that goextract re-reads on every run and that is false today, refuted while it is false, "
+                  "and accompanied by an unconditional partial theorem: c12_bundle_complete (BuildIndex's tag key ignores Platform.Variant, finding C12-F1: arm/v6 is dropped "
+                  "when arm/v7 is present) and c12_config_mapping (the MergeInto copy drops VCSUrl, finding C12-F2: source/revision labels never written). The model is tied to the code by differential comparison on real BuildIndex / BuildImageFromLayers / GenerateIndex runs.")
     level_note = ("trusted: Coq kernel, goextract, Go harness/printer; modelled not verified: Go text of BuildIndex/BuildImageFromLayers/generateIndexWithMediaType; "
                   "EXPLORATION only (not proof): byte-level well-formedness — tar readability, sha256/size of every descriptor, config diff-ids vs layers, produced by "
                   "go-containerregistry/cosign/archive/tar — re-read and recomputed by the harness over a sweep of manifest.json lengths mod 512; shlex and RFC3339 formatting are oracles")
